@@ -27,7 +27,8 @@ Proof.
     apply (alook_rec (XP (RepZ compact clock))); [apply RepZ_empty|exact C].
   - apply (rep_list_agree compact clock).
     apply (xview_inv forget_l compact (RepL compact clock)); [intros Cc r; apply forget_l_rep; exact Cc|].
-    apply (alook_rec (XP (RepL compact clock))); [apply RepL_empty|exact D].
+    apply (alook_rec (XP (RepL compact clock))); [apply RepL_empty|].
+    eapply all_recs_mono; [|exact D]. intros v [Rv _]; exact Rv.
 Qed.
 
 Theorem rep_all_sequences compact now cs : increasing 0 cs -> RepS compact (last_ts 0 cs) (map_run compact now cs m_init).
@@ -62,7 +63,7 @@ Proof.
   - eapply all_recs_mono; [|exact A]. intros v; apply HC.
   - eapply all_recs_mono; [|exact B]. intros v; apply HC.
   - eapply all_recs_mono; [|exact C]. intros v [R1 R2]; constructor; [apply HC; exact R1|exact R2].
-  - eapply all_recs_mono; [|exact D]. intros v; apply HL.
+  - eapply all_recs_mono; [|exact D]. intros v [Rv Sv]; split; [apply HL; exact Rv|exact Sv].
 Qed.
 
 (* the collections after a step under local_deletion do not depend on the timestamp *)
